@@ -1,0 +1,189 @@
+//go:build verif
+
+// Contracts for package decor (comment-only; read by /verif/bin/gowp).
+package decor
+
+// Interface contract of Decorator.Decor (C07: the reported width is the display width of the
+// returned text). Assumed for user-supplied decorators, an obligation for the built-in ones.
+// A decorator may change its own state (package decor) and exchange widths on its channel.
+
+//@ iface Decorator.Decor
+//@   params   stat
+//@   modifies pkgstate("decor"), sent(), recvd()
+//@   ensures  honest: result1 >= 0 && dw(result0) == result1
+
+// width configuration: Format pads (never truncates) to the width it computed; with
+// synchronisation it sends its own width once and takes the reply as its width.
+// Assumption A-SYNC (chan ... assume): the peer on a wsync channel answers with a value not
+// smaller than what it was sent - proved for maxWidthDistributor, the only peer the library
+// starts (package mpb, C12).
+
+//@ chan decor_WC.wsync assume v >= lastSent(ch)
+
+//@ functype decor_WC.fill
+//@   params   s w
+//@   modifies nothing
+//@   ensures  dw(result) == max(dw(s), w)
+
+//@ func (WC).Format
+//@   props    C07 C12
+//@   requires wc.fill != nil && ((wc.C & DSyncWidth) != 0 ==> wc.wsync != nil)
+//@   modifies sent(wc.wsync), recvd(wc.wsync)
+//@   ensures  honest: result1 >= 0 && dw(result0) == result1
+//@   ensures  own@C12: (wc.C & DSyncWidth) == 0 ==> result1 == max(wc.W, dw(str) + ite((wc.C & DextraSpace) != 0 && wc.W <= dw(str), 1, 0)) && sent(wc.wsync) == old(sent(wc.wsync))
+//@   ensures  exchange@C12: (wc.C & DSyncWidth) != 0 ==> sent(wc.wsync) == old(sent(wc.wsync)) + 1 && recvd(wc.wsync) == old(recvd(wc.wsync)) + 1
+//@              && lastSent(wc.wsync) == max(wc.W, dw(str) + ite((wc.C & DextraSpace) != 0 && wc.W <= dw(str), 1, 0)) && result1 >= lastSent(wc.wsync)
+
+//@ func (*WC).Init
+//@   props    C07 C12 C02
+//@   requires wc != nil
+//@   modifies wc.fill, wc.wsync
+//@   ensures  result.fill != nil && ((result.C & DSyncWidth) != 0 ==> result.wsync != nil)
+//@   ensures  result.W == old(wc.W) && result.C == old(wc.C)
+
+//@ func initWC
+//@   props    C07 C12 C02
+//@   ensures  result.fill != nil && ((result.C & DSyncWidth) != 0 ==> result.wsync != nil)
+
+//@ func (WC).Sync
+//@   props    C12 C02
+//@   ensures  result1 == ((wc.C & DSyncWidth) != 0) && result0 == wc.wsync
+
+// built-in decorators: the width reported is the display width of the text returned
+// (behavioural subtyping against Decorator.Decor). Assumption M: user meta functions
+// preserve display width.
+
+//@ typeinv any props C07 C02 self.fill != nil && ((self.C & DSyncWidth) != 0 ==> self.wsync != nil) && self.fn != nil
+//@ typeinv movingAverageETA props C07 C02 self.fill != nil && ((self.C & DSyncWidth) != 0 ==> self.wsync != nil) && self.producer != nil && self.average != nil
+//@ typeinv averageETA props C07 C02 self.fill != nil && ((self.C & DSyncWidth) != 0 ==> self.wsync != nil) && self.producer != nil
+//@ typeinv movingAverageSpeed props C07 C02 self.fill != nil && ((self.C & DSyncWidth) != 0 ==> self.wsync != nil) && self.producer != nil && self.average != nil
+//@ typeinv averageSpeed props C07 C02 self.fill != nil && ((self.C & DSyncWidth) != 0 ==> self.wsync != nil) && self.producer != nil
+//@ typeinv metaWrapper props C07 C02 self.Decorator != nil && self.fn != nil
+//@ typeinv onCompleteWrapper props C07 C02 self.Decorator != nil
+//@ typeinv onAbortWrapper props C07 C02 self.Decorator != nil
+//@ typeinv onCompleteMetaWrapper props C07 C02 self.Decorator != nil && self.fn != nil
+//@ typeinv onAbortMetaWrapper props C07 C02 self.Decorator != nil && self.fn != nil
+
+//@ iface TimeNormalizer.Normalize
+//@   params   src
+//@   modifies pkgstate("decor")
+
+//@ iface Formatter.Format
+//@   params   str
+//@   modifies sent(), recvd()
+//@   ensures  honest: result1 >= 0 && dw(result0) == result1
+
+//@ functype decor_any.fn
+//@   params   s
+//@   modifies pkgstate("decor")
+//@ functype decor_movingAverageETA.producer
+//@   modifies nothing
+//@ functype decor_averageETA.producer
+//@   modifies nothing
+//@ functype decor_movingAverageSpeed.producer
+//@   modifies nothing
+//@ functype decor_averageSpeed.producer
+//@   modifies nothing
+//@ functype decor_metaWrapper.fn
+//@   params   s
+//@   modifies nothing
+//@   ensures  dw(result) == dw(s)
+//@ functype decor_onCompleteMetaWrapper.fn
+//@   params   s
+//@   modifies nothing
+//@   ensures  dw(result) == dw(s)
+//@ functype decor_onAbortMetaWrapper.fn
+//@   params   s
+//@   modifies nothing
+//@   ensures  dw(result) == dw(s)
+
+//@ func (any).Decor
+//@   props    C07 C12
+//@   modifies pkgstate("decor"), sent(), recvd()
+//@   ensures  honest: result1 >= 0 && dw(result0) == result1
+
+//@ func (*movingAverageETA).Decor
+//@   props    C07 C12 C20
+//@   noovf
+//@   requires d != nil
+//@   modifies pkgstate("decor"), sent(), recvd()
+//@   ensures  honest: result1 >= 0 && dw(result0) == result1
+
+//@ func (*averageETA).Decor
+//@   props    C07 C12 C20
+//@   noovf
+//@   requires d != nil
+//@   modifies pkgstate("decor"), sent(), recvd()
+//@   ensures  honest: result1 >= 0 && dw(result0) == result1
+
+//@ func (*movingAverageSpeed).Decor
+//@   props    C07 C12 C20
+//@   requires d != nil
+//@   modifies pkgstate("decor"), sent(), recvd()
+//@   ensures  honest: result1 >= 0 && dw(result0) == result1
+
+//@ func (*averageSpeed).Decor
+//@   props    C07 C12 C20
+//@   requires d != nil
+//@   modifies pkgstate("decor"), sent(), recvd()
+//@   ensures  honest: result1 >= 0 && dw(result0) == result1
+
+//@ func (metaWrapper).Decor
+//@   props    C07 C12
+//@   modifies pkgstate("decor"), sent(), recvd()
+//@   ensures  honest: result1 >= 0 && dw(result0) == result1
+
+//@ func (onCompleteWrapper).Decor
+//@   props    C07 C12
+//@   modifies pkgstate("decor"), sent(), recvd()
+//@   ensures  honest: result1 >= 0 && dw(result0) == result1
+
+//@ func (onAbortWrapper).Decor
+//@   props    C07 C12
+//@   modifies pkgstate("decor"), sent(), recvd()
+//@   ensures  honest: result1 >= 0 && dw(result0) == result1
+
+//@ func (onCompleteMetaWrapper).Decor
+//@   props    C07 C12
+//@   modifies pkgstate("decor"), sent(), recvd()
+//@   ensures  honest: result1 >= 0 && dw(result0) == result1
+
+//@ func (onAbortMetaWrapper).Decor
+//@   props    C07 C12
+//@   modifies pkgstate("decor"), sent(), recvd()
+//@   ensures  honest: result1 >= 0 && dw(result0) == result1
+
+// constructors (they establish the struct invariants above)
+
+//@ func Any
+//@   props    C07 C02
+//@   requires fn != nil
+//@   ensures  result != nil
+
+//@ func Meta
+//@   props    C07 C02
+//@   requires fn != nil
+//@ func OnCompleteMeta
+//@   props    C07 C02
+//@   requires fn != nil
+//@ func OnAbortMeta
+//@   props    C07 C02
+//@   requires fn != nil
+//@ func MovingAverageETA
+//@   props    C07 C02
+//@ func NewAverageETA
+//@   props    C07 C02
+//@ func MovingAverageSpeed
+//@   props    C07 C02
+//@   requires average != nil
+//@ func NewAverageSpeed
+//@   props    C07 C02
+//@ func chooseTimeProducer
+//@   props    C07 C02 C20
+//@   ensures  result != nil
+//@ func chooseSpeedProducer
+//@   props    C07 C02 C20
+//@   ensures  result != nil
+//@ func NewMedian
+//@   props    C07 C02
+//@   ensures  result != nil
